@@ -14,11 +14,6 @@ threshold), `cl` the integer Content-Length.
 namespace Ombott.Body
 open Py
 
-/-- the accumulator `_body_read` returns for a body `b` under threshold `buf`: the bytes, and
-file-backed exactly when longer than the threshold -/
-def bodyOf (buf : Nat) (b : Bytes) : Sink :=
-  { body := b, size := b.length, isTemp := decide (b.length > buf) }
-
 /-- **byte-exact**: whatever the read fragmentation, the buffer size (`> 0`) and the storage
 mode, `_body_read` returns exactly the first `Content-Length` bytes the stream delivers
 (all of them if the stream ends early), provided no size limit is exceeded. -/
